@@ -681,4 +681,178 @@ def intensity_used(ctx):
     return res
 
 
-RULES = [intensity_used, c03_trace_entry, c03_fields, arg_forward_rule, no_stale, records, arg_names_rule, list_space, record_fresh, operand_attr, parabasal, distortion, radii]
+def const_str(n):
+    return n.value if isinstance(n, ast.Constant) and \
+        isinstance(n.value, str) else None
+
+
+def pupil_aberration(ctx):
+    """pupil aberration = (paraxial - real) stop coordinate, in per cent of
+    the paraxial stop semi-diameter, x part from the line_x fan and y part
+    from the line_y fan, at the same pupil samples as the paraxial fan; rays
+    that did not reach the stop are NaN.  Syntax-directed walk of
+    PupilAberration._generate_data with the state 'which trace is the record
+    from'."""
+    P = ctx.P
+    res = Result('PUPIL-ABERRATION', 'pupil aberration is 100 (y_paraxial - '
+                 'y_real) / d at the stop, component by component, from the '
+                 'fan that was traced for that component')
+    f = P.func('PupilAberration._generate_data')
+    res.saw(f)
+
+    def bad(node, msg, construct):
+        res.fail(ctx.finding('PUPIL-ABERRATION', f, node, msg,
+                             construct=construct))
+
+    flat = []
+
+    def walk(body):
+        for st in body:
+            if isinstance(st, ast.For):
+                walk(st.body)
+            else:
+                flat.append(st)
+    walk(f.node.body)
+    defs = {}                   # name -> description tuple
+    last = None                 # description of the last trace
+    stop = None
+    samples = {}
+    stores = {}
+    masks = {}
+    for st in flat:
+        src = unparse(st)
+        calls = [c for c in ast.walk(st) if isinstance(c, ast.Call) and
+                 isinstance(c.func, ast.Attribute) and c.func.attr == 'trace']
+        if isinstance(st, ast.Expr) and calls:
+            c = calls[0]
+            if 'paraxial' in unparse(c.func):
+                a = [unparse(x) for x in c.args]
+                last = ('paraxial',) + tuple(a)
+            else:
+                kw = {k.arg: unparse(k.value) for k in c.keywords}
+                last = ('real', kw.get('distribution'), kw.get('num_rays'),
+                        kw.get('Hx'), kw.get('Hy'), kw.get('wavelength'))
+            continue
+        if isinstance(st, ast.Assign) and len(st.targets) == 1:
+            t, v = st.targets[0], st.value
+            if isinstance(t, ast.Name):
+                if unparse(v).endswith('surface_group.stop_index'):
+                    stop = t.id
+                    continue
+                if isinstance(v, ast.Dict):
+                    for k, x in zip(v.keys, v.values):
+                        samples[const_str(k)] = unparse(x)
+                    continue
+                if isinstance(v, ast.Subscript) and _record_read(v.value):
+                    sl = v.slice.elts if isinstance(v.slice, ast.Tuple) \
+                        else [v.slice]
+                    defs[t.id] = ('rec', _record_read(v.value),
+                                  ', '.join(unparse(x) for x in sl), last)
+                    continue
+                defs[t.id] = ('expr', v)
+                continue
+            if isinstance(t, ast.Subscript) and isinstance(t.value, ast.Name) \
+                    and unparse(v) in ('np.nan', 'float("nan")'):
+                masks[t.value.id] = t.slice
+                continue
+            if isinstance(t, ast.Subscript) and \
+                    isinstance(t.slice, ast.Constant) and \
+                    t.slice.value in ('x', 'y') and isinstance(v, ast.Name):
+                stores[t.slice.value] = (v.id, unparse(t.value))
+    n0 = len(res.failures) if hasattr(res, 'failures') else None
+    if stop is None:
+        raise AnalysisError('PupilAberration: stop index not found')
+    lin = f'np.linspace(-1, 1, self.num_points)'
+    for k in ('Px', 'Py'):
+        if samples.get(k) != lin:
+            bad(f.node, f'pupil samples {k} are {samples.get(k)}, the line '
+                f'distributions trace np.linspace(-1, 1, num_rays)',
+                'pupil samples')
+        else:
+            res.ok(f'{k} samples = linspace(-1, 1, num_points)')
+    for comp, dist in (('x', "'line_x'"), ('y', "'line_y'")):
+        if comp not in stores:
+            bad(f.node, f"no store to [...]['{comp}']", f'store {comp}')
+            continue
+        name, where = stores[comp]
+        if where != "data[f'{field}'][f'{wavelength}']":
+            bad(f.node, f'{comp} error stored under {where}',
+                f'store key {comp}')
+        d = defs.get(name)
+        pat = None
+        if d and d[0] == 'expr':
+            # roles from the definitions of the names in the expression, the
+            # formula itself compared as a rational function
+            names = sorted({n.id for n in ast.walk(d[1])
+                            if isinstance(n, ast.Name) and n.id in defs})
+            roles = {}
+            for nm in names:
+                dd_ = defs[nm]
+                if dd_[0] != 'rec' or not dd_[3]:
+                    continue
+                if dd_[3][0] == 'real':
+                    roles['REAL'] = nm
+                elif dd_[2].endswith(', :'):
+                    roles['REF'] = nm
+                else:
+                    roles['D'] = nm
+            if len(roles) == 3 and len(names) == 3:
+                try:
+                    ev = Ev(sym=Sym(), env={nm: Rat.atom(nm) for nm in names})
+                    got = ev.ev(d[1])
+                    want = Rat.const(100) * (
+                        Rat.atom(roles['REF']) - Rat.atom(roles['REAL'])) / \
+                        Rat.atom(roles['D'])
+                    if rat_eq(got, want):
+                        pat = {k: ast.Name(id=v) for k, v in roles.items()}
+                except Inconclusive:
+                    pat = None
+        if not pat:
+            bad(f.node, f'error_{comp} is not 100 * (paraxial - real) / d',
+                f'error {comp} formula')
+            continue
+        ref, real, dd = (defs.get(unparse(pat[k])) for k in
+                         ('REF', 'REAL', 'D'))
+        ok = True
+        if not (ref and ref[0] == 'rec' and ref[1] == 'y' and
+                ref[2] == f'{stop}, :' and ref[3] and
+                ref[3][0] == 'paraxial' and ref[3][1:] == (
+                    '0', "data['Py']", 'self.optic.primary_wavelength')):
+            ok = False
+            bad(f.node, f'the paraxial reference of the {comp} part is not '
+                f'the stop height of the on-axis paraxial fan over the pupil '
+                f'samples ({ref})', f'paraxial reference {comp}')
+        if not (real and real[0] == 'rec' and real[1] == comp and
+                real[2] == f'{stop}, :' and real[3] and
+                real[3][:3] == ('real', dist, 'self.num_points') and
+                real[3][3:] == ('Hx', 'Hy', 'wavelength')):
+            ok = False
+            bad(f.node, f'the real {comp} coordinate is not the stop record '
+                f'{comp}[stop, :] of the {dist} fan of this field and '
+                f'wavelength ({real})', f'real coordinate {comp}')
+        if not (dd and dd[0] == 'rec' and dd[1] == 'y' and
+                dd[2] == f'{stop}, 0' and dd[3] and dd[3][0] == 'paraxial'
+                and dd[3][1:] == ('0', '1',
+                                  'self.optic.primary_wavelength')):
+            ok = False
+            bad(f.node, f'the normalisation is not the paraxial marginal '
+                f'height at the stop ({dd})', f'normalisation {comp}')
+        m = masks.get(name)
+        mi = None
+        if m is not None and isinstance(m, ast.Compare) and \
+                isinstance(m.ops[0], ast.Eq) and \
+                unparse(m.comparators[0]) in ('0', '0.0'):
+            mi = defs.get(unparse(m.left))
+        if not (mi and mi[0] == 'rec' and mi[1] == 'intensity' and
+                mi[2] == f'{stop}, :' and mi[3] and mi[3][:2] == ('real',
+                                                                  dist)):
+            ok = False
+            bad(f.node, f'the {comp} part is not blanked where the {dist} '
+                f'ray has zero intensity at the stop ({mi})', f'mask {comp}')
+        if ok:
+            res.ok(f'{comp}: 100 (paraxial fan - {dist} fan) / d at the '
+                   f'stop, blocked rays NaN')
+    return res
+
+
+RULES = [pupil_aberration, intensity_used, c03_trace_entry, c03_fields, arg_forward_rule, no_stale, records, arg_names_rule, list_space, record_fresh, operand_attr, parabasal, distortion, radii]
